@@ -198,3 +198,35 @@ def _all_converted_model(it, a, kw):
 
 all_converted._pyvc_model = _all_converted_model
 all_converted._pyvc_always = True
+
+
+def instance_violations(inst):
+    """C04's consequence, checked on an instance that exists: every required child is there, every exclusivity
+    group declared anywhere in the MRO holds.  The declarations are read from the class bodies along the MRO, not
+    from the class's own derived mappings."""
+    from props.aggclasses import declared_spec, declared_mutexes
+    cls = type(inst)
+    out = []
+    spec = declared_spec(cls, lists=False)
+    for a, t in spec.items():
+        if getattr(t, "required", False) and inst.__dict__.get(a) is None:
+            out.append(f"required {a} is missing")
+    opt, req = declared_mutexes(cls)
+    for g in opt:
+        n = sum(1 for m in g if m in spec and inst.__dict__.get(m) is not None)
+        if n > 1:
+            out.append(f"at most one of {g}: {n} present")
+    for g in req:
+        if not all(m in spec for m in g):
+            continue
+        n = sum(1 for m in g if inst.__dict__.get(m) is not None)
+        if n != 1:
+            out.append(f"exactly one of {g}: {n} present")
+    return out
+
+
+def same_value(a, b):
+    """None is None; anything else: the very value"""
+    if a is None or b is None:
+        return a is None and b is None
+    return a == b
